@@ -52,4 +52,9 @@ RECURSIVE IterG(_, _, _, _)
 IterG(v, pm, g, nb) == IF g*32 >= nb THEN v ELSE IterG(IterC(v, pm, g*32, IF g*32+31 < nb-1 THEN g*32+31 ELSE nb-1), pm, g+1, nb)
 HashP(pm) == IterG(IV, pm, 0, Len(pm) \div 64)
 Hash(msg) == HashP(Pad(msg))
+DBytesTMP(h) == << h[1][1] \div 256, h[1][1] % 256, h[1][2] \div 256, h[1][2] % 256, h[2][1] \div 256, h[2][1] % 256, h[2][2] \div 256, h[2][2] % 256,
+                h[3][1] \div 256, h[3][1] % 256, h[3][2] \div 256, h[3][2] % 256, h[4][1] \div 256, h[4][1] % 256, h[4][2] \div 256, h[4][2] % 256,
+                h[5][1] \div 256, h[5][1] % 256, h[5][2] \div 256, h[5][2] % 256, h[6][1] \div 256, h[6][1] % 256, h[6][2] \div 256, h[6][2] % 256,
+                h[7][1] \div 256, h[7][1] % 256, h[7][2] \div 256, h[7][2] % 256, h[8][1] \div 256, h[8][1] % 256, h[8][2] \div 256, h[8][2] % 256 >>
+DigestBytesOf(m) == DBytesTMP(Hash(m))
 =====================================================================
